@@ -27,6 +27,7 @@ type witness struct {
 	Pre    []string `json:"pre_history"`
 	K      int      `json:"pause_before_op"`
 	Op     string   `json:"op"`
+	Plan   string   `json:"pause_point,omitempty"` // i:op path (run directory as @)
 }
 
 type proc struct {
@@ -145,17 +146,34 @@ func main() {
 		if o := e.RunWith(plzVos, dry, src, []string{"VOS_TRACE=" + tf}); o.Exit != 0 {
 			lib.Fatal("dry run failed: %s", o.Output)
 		}
+		// pause points are named by operation identity (i-th occurrence of "op path", the run directory normalised): the
+		// order of operations inside one invocation differs between runs, their identity does not
 		tb, _ := os.ReadFile(tf)
-		n := len(strings.Split(strings.TrimSpace(string(tb)), "\n"))
+		var keys []string
+		count := map[string]int{}
+		for _, l := range strings.Split(strings.TrimSpace(string(tb)), "\n") {
+			f := strings.SplitN(l, " ", 2)
+			if len(f) != 2 {
+				continue
+			}
+			k := strings.ReplaceAll(f[1], dry, "@")
+			count[k]++
+			keys = append(keys, fmt.Sprintf("%d:%s", count[k], k))
+		}
 		os.RemoveAll(dry)
 		ks := []int{}
-		for k := 1; k <= n+1; k += sc.step {
+		for k := 0; k < len(keys); k += sc.step {
 			ks = append(ks, k)
 		}
 		if r.Replay != "" {
 			var w witness
 			lib.LoadReplay(r.Replay, &w)
-			ks = []int{w.K}
+			ks = nil
+			for i, k := range keys {
+				if k == w.Plan {
+					ks = []int{i}
+				}
+			}
 		}
 		ch := make(chan int)
 		var wg sync.WaitGroup
@@ -168,7 +186,7 @@ func main() {
 					hist.CopyTree(pre, dir)
 					pd := filepath.Join(dir, "pause")
 					os.MkdirAll(pd, 0o755)
-					a := start(plzVos, dir, args, []string{fmt.Sprintf("VOS_PLAN=pause@%d:%s", k, pd)})
+					a := start(plzVos, dir, args, []string{"VOS_PLAN=pauseop@" + keys[k], "VOS_NORM=" + dir, "VOS_PAUSE_DIR=" + pd})
 					// wait until A reaches its pause point (or finishes: fewer ops this time)
 					deadline := time.Now().Add(120 * time.Second)
 					for !a.finished() && time.Now().Before(deadline) {
@@ -178,7 +196,7 @@ func main() {
 						time.Sleep(3 * time.Millisecond)
 					}
 					opb, _ := os.ReadFile(filepath.Join(pd, "reached"))
-					wit := witness{Family: sc.fam.Name(), Pre: sc.pre, K: k, Op: strings.TrimSpace(string(opb))}
+					wit := witness{Family: sc.fam.Name(), Pre: sc.pre, K: k, Plan: keys[k], Op: strings.TrimSpace(string(opb))}
 					samples.Add(func() any { return wit })
 					b := start(plzVos, dir, args, nil)
 					for !b.finished() && time.Now().Before(deadline) {
@@ -247,12 +265,12 @@ func main() {
 	r.Assume = []string{
 		"granularity: mutating file-system operations of plz itself (os.* / xattr.* in src/fs, cache, build, core, test); instruction-level races inside one operation or inside the kernel are out of reach",
 		"schedules: process A preempted once, before each of its operations in turn; B runs in the gap until it exits or sleeps in flock() (detected from /proc/<pid>/task/*/stack); with two invocations of the same command the two role assignments are symmetric",
-		"each invocation uses -n 2, so operation order inside one process varies between runs: k is the k-th operation of that run",
+		"each invocation uses -n 2, so operation order inside one process varies between runs: pause points are named by operation identity (i-th occurrence of `op path` of a lone dry run), not by number; a pause point that an invocation does not reach lets it run to its end (B then runs after A)",
 	}
 	r.Finish(lib.Coverage{
 		Evaluations:        int(execs),
 		DistinctNontrivial: int(bBlocked + bFinished),
-		Rule:               "for each scenario every pause point k of invocation A (before its k-th mutating file-system operation) with invocation B started in the gap; non-trivial = B really ran in the gap (finished, or blocked on a lock A holds)",
+		Rule:               "for each scenario every pause point of invocation A (before each distinct mutating file-system operation occurrence of a lone dry run) with invocation B started in the gap; non-trivial = B really ran in the gap (finished, or blocked on a lock A holds)",
 		Samples:            samples.List(),
 		States:             int(states),
 		Transitions:        int(execs),
